@@ -76,4 +76,30 @@ def stepSvcLife (toks : List String) : Option String :=
       | some out => some (" ".intercalate out)
   | _ => none
 
+/-- `runloop <svc|fg> <ok|err> <signals|->`: the calls the daemon's run loop makes on the service object and how the
+process ends (NV.SvcLife.runLoopOps / stopsOn): Start; on its error the loop returns it; otherwise Stop at the first
+stopping signal and the loop returns; with no stopping signal the process is still there. -/
+def stepRunLoop (toks : List String) : Option String :=
+  match toks with
+  | ["runloop", mode, start, sigs] =>
+    let fg? : Option Bool := if mode = "fg" then some true else if mode = "svc" then some false else none
+    let as? : Option (List SvcStart.Att) :=
+      if start = "ok" then some [.bound] else if start = "err" then some [.failed] else none
+    let sigOf (fg : Bool) (s : String) : Option SvcLife.Sig :=
+      if s = "TERM" then some .term else if s = "HUP" then some .hup else if s = "INT" then some .int
+      else if s ∈ ["USR1", "USR2", "CHLD", "URG", "WINCH", "CONT"] then some .other
+      else if s = "QUIT" ∧ !fg then some .other else none
+    match fg?, as? with
+    | some fg, some as =>
+      match (if sigs = "-" then some [] else (sigs.splitOn ",").mapM (sigOf fg)) with
+      | none => some "bad-op"
+      | some ss =>
+        let ops := SvcLife.runLoopOps fg as ss
+        let calls := ops.map fun o => match o with | .start _ => "start" | .stop => "stop" | _ => "?"
+        let stopped := ops.any fun o => o == .stop
+        let e := if SvcStart.svcStart as != .started then "ret=err" else if stopped then "ret=nil" else "alive"
+        some s!"calls={",".intercalate calls} end={e}"
+    | _, _ => some "bad-op"
+  | _ => none
+
 end NV
